@@ -639,26 +639,7 @@ func (g *JSGen) Stmt(depth int) string {
 		return sb.String()
 	case k < 18 && g.F.ES2015: // destructuring
 		if r.Chance(45) {
-			// bindings that are never read again (the final-state dump only covers
-			// v*/d* names): a bundler/IIFE tree shaker may drop the declaration,
-			// which is only sound when no default value or getter runs
-			g.count("destructuring-unused")
-			u := g.fresh("u")
-			dflt := g.probeCall(r.Pick([]string{g.number(), g.str()}))
-			if r.Chance(20) {
-				dflt = "(() => { throw new RangeError(\"boom\") })()"
-			}
-			src := r.Pick([]string{"[undefined]", "[void 0]", "[,]", "[...[]]", "[null]", "[1]", "[]", "[" + g.Expr(1, lvAssign) + "]", "[, 2]", "[undefined, 3]"})
-			switch r.Intn(4) {
-			case 0:
-				return "var [" + u + " = " + dflt + "] = " + src + ";"
-			case 1:
-				return "var [, " + u + " = " + dflt + "] = " + src + ";"
-			case 2:
-				return "var {a: " + u + " = " + dflt + "} = " + r.Pick([]string{"{a: undefined}", "{a: void 0}", "{}", "{a: null}", "{a: 1}", "{get a() { return " + g.probeCall("undefined") + " }}"}) + ";"
-			default:
-				return "var [{b: " + u + " = " + dflt + "} = {}] = " + src + ";"
-			}
+			return g.UnusedDestructuring()
 		}
 		g.count("destructuring")
 		a, b := g.fresh("d"), g.fresh("d")
@@ -678,6 +659,32 @@ func (g *JSGen) Stmt(depth int) string {
 			return "function* " + f + "() { yield " + g.probeCall(g.number()) + "; yield* [" + g.Expr(1, lvAssign) + "]; return 3 }\n" + g.probeCall("Array.from("+f+"())") + ";"
 		}
 		return g.exprStmt(3)
+	}
+}
+
+// UnusedDestructuring: a declaration whose bindings are never read again (the
+// final-state dump only covers v*/d* names). A bundler or IIFE tree shaker may
+// drop it, which is only sound when no default value or getter runs: the
+// source value has an element/property that is present but undefined, a hole,
+// an empty spread, or is absent.
+func (g *JSGen) UnusedDestructuring() string {
+	r := g.R
+	g.count("destructuring-unused")
+	u := g.fresh("u")
+	dflt := g.probeCall(r.Pick([]string{g.number(), g.str()}))
+	if r.Chance(20) {
+		dflt = "(() => { throw new RangeError(\"boom\") })()"
+	}
+	src := r.Pick([]string{"[undefined]", "[void 0]", "[,]", "[...[]]", "[null]", "[1]", "[]", "[" + g.Expr(1, lvAssign) + "]", "[, 2]", "[undefined, 3]"})
+	switch r.Intn(4) {
+	case 0:
+		return "var [" + u + " = " + dflt + "] = " + src + ";"
+	case 1:
+		return "var [, " + u + " = " + dflt + "] = " + src + ";"
+	case 2:
+		return "var {a: " + u + " = " + dflt + "} = " + r.Pick([]string{"{a: undefined}", "{a: void 0}", "{}", "{a: null}", "{a: 1}", "{get a() { return " + g.probeCall("undefined") + " }}"}) + ";"
+	default:
+		return "var [{b: " + u + " = " + dflt + "} = {}] = " + src + ";"
 	}
 }
 
@@ -701,7 +708,15 @@ func (g *JSGen) Program(n int) string {
 	if g.F.Strict {
 		sb.WriteString("\"use strict\";\n")
 	}
+	extra := -1
+	if g.F.ES2015 && g.R.Chance(35) {
+		extra = g.R.Intn(n + 1)
+	}
 	for i := 0; i < n; i++ {
+		if i == extra {
+			// top-level unused bindings: the case a tree shaker looks at
+			sb.WriteString(g.UnusedDestructuring() + "\n")
+		}
 		st := g.Stmt(2)
 		// declarations must stay at the top level to be visible to later statements
 		if strings.HasPrefix(st, "var ") || strings.HasPrefix(st, "let ") || strings.HasPrefix(st, "const ") || strings.HasPrefix(st, "function") || strings.HasPrefix(st, "class ") {
